@@ -200,7 +200,7 @@ class Spec:
 
     # ------------------------------------------------------------------
     def render(self, action, extra_options=(), eof_action=None, prologue='',
-               sect2_prologue='', epilogue=''):
+               sect2_prologue='', epilogue='', append_rules=()):
         """action(rule) -> C text of the action; returns flex input text."""
         out = []
         opts = list(self.options) + list(extra_options)
@@ -230,6 +230,7 @@ class Spec:
                     out.append('%s |' % r.text)
                 else:
                     out.append('%s %s' % (r.text, action(r)))
+        out += list(append_rules)
         out.append('%%')
         if epilogue:
             out.append(epilogue)
